@@ -26,7 +26,7 @@ func generateNumericRule(num profile.NumericRule, rule string, op string, iriExp
 	var rego []string
 
 	// Let's get the path computed and stored in the inValuesVariable
-	rego = append(rego, "#  querying path: "+path.Source())
+	rego = append(rego, queryingPathComment(path.Source()))
 	pathResult := GeneratePropertySet(path, num.Variable.Name, iriExpander)
 	valueVariable := profile.Genvar("numeric_comparison")
 	rego = append(rego, fmt.Sprintf("%s_elem = %s with data.sourceNode as %s", valueVariable, pathResult.rule, num.Variable.Name))
